@@ -216,13 +216,26 @@ func startFakeSSHD(r *vlib.Run, name string, ports []int, hostKeyFiles []string,
 	if err != nil {
 		return nil, err
 	}
-	for _, p := range ports {
-		if !vlib.WaitPort(p, 15*time.Second) {
-			d.Stop()
-			return nil, fmt.Errorf("fakesshd did not open port %d: %s", p, d.Log())
+	// wait for the "ready" event (all ports are listening then); no probe
+	// connection is made, so connection indices seen by the server are exact.
+	f := &fakeSSHDProc{D: d, Ports: ports, Log: logPath}
+	deadline := time.Now().Add(15 * time.Second)
+	for {
+		ready := false
+		for _, e := range f.Events() {
+			if e.Ev == "ready" {
+				ready = true
+			}
 		}
+		if ready {
+			return f, nil
+		}
+		if !d.Alive() || time.Now().After(deadline) {
+			d.Stop()
+			return nil, fmt.Errorf("fakesshd did not get ready: %s", d.Log())
+		}
+		time.Sleep(5 * time.Millisecond)
 	}
-	return &fakeSSHDProc{D: d, Ports: ports, Log: logPath}, nil
 }
 
 func (f *fakeSSHDProc) Events() []fakeEvent {
